@@ -30,8 +30,8 @@ sim("C04", "WHAT THE RESULT MEANS UNDER EVERY FAULT PLAN (C04_start_result, C04_
     "descriptor/heap/child residue of a failed start and that the negative result is the error of the call that failed first (the cause), under every fault plan; that success implies the program was exec'd (refuted by the known findings D18/D20, which need a second failure).",
     "every call index of 17 option scenarios x errnos (singles exhaustively, pairs sampled), followed by pid / second start / destroy.",
     "Coq theorems (life-cycle of start) + fault enumeration against the implementation")
-sim("C05", "DESCRIPTORS FOR EVERY HISTORY AND EVERY FAULT PLAN (C05_history_restores_descriptor_table, FdSpec): any sequence of calls on a handle made by reproc_new - failing starts, successful starts, restarts, read, write, close, poll, wait, terminate, kill, stop sequences, in any order, each under any fault plan (failures of close itself included), whatever the children do - followed by destroy leaves the caller's descriptor table EXACTLY as it was (same numbers, same objects, same flags): nothing the caller owned was closed or re-flagged, nothing the library opened is left (ownership invariant over the table: fresh slots of pipe/open are owned until closed, redirect_init owns exactly what the REGENERATED redirect_destroy table will close, the handle between calls owns exactly its four pipe ends); C05_start_descriptor_table: a failed start restores the table, a successful one adds only the handle's own ends on previously free numbers; C05_process_start_restores_descriptor_table. MEMORY FOR EVERY FAULT PLAN (C05_start_releases_every_block, HeapSpec): whatever reproc_start returns and whatever fails on the way - allocation failures at any point of the program-path copy (incl. the getcwd/realloc growth loop) and of the environment copy included - the caller's heap afterwards holds exactly the blocks it held before; the regenerated ownership table of redirect_destroy is the documented one; foreign types cause no system call; the single close helper; the post-start API closes only descriptors stored in the handle and never the invalid marker; failed start owns nothing.",
-    "the child balance (no unreaped child) of whole histories under every fault plan and the exactly-once release of memory by the calls other than start (poll's scratch array: footprint shows calloc/free pairs, drain's string sink: ProofsDrain + unit tie) are decided by the tie's ledger monitors; the history theorem is about one handle (several handles interleaved: tie), about reproc_run/drain not at all (tie), and about the parent process (a fork-mode child's own table: C10/C11).",
+sim("C05", "DESCRIPTORS FOR EVERY HISTORY AND EVERY FAULT PLAN (C05_history_restores_descriptor_table, FdSpec): any sequence of calls on a handle made by reproc_new - failing starts, successful starts, restarts, read, write, close, poll, wait, terminate, kill, stop sequences, in any order, each under any fault plan (failures of close itself included), whatever the children do - followed by destroy leaves the caller's descriptor table EXACTLY as it was (same numbers, same objects, same flags): nothing the caller owned was closed or re-flagged, nothing the library opened is left (ownership invariant over the table: fresh slots of pipe/open are owned until closed, redirect_init owns exactly what the REGENERATED redirect_destroy table will close, the handle between calls owns exactly its four pipe ends); C05_start_descriptor_table: a failed start restores the table, a successful one adds only the handle's own ends on previously free numbers; C05_process_start_restores_descriptor_table. MEMORY FOR EVERY HISTORY AND EVERY FAULT PLAN (C05_history_releases_memory, MemSpec): reproc_new, then any sequence of calls on the new handle, then destroy leaves the caller's heap with exactly the blocks it had - the handle block, every start's program-path and environment copies, every poll's scratch array are released, each exactly once (ownership invariant over the allocation ledger); for one start (C05_start_releases_every_block, HeapSpec): whatever reproc_start returns and whatever fails on the way - allocation failures at any point of the program-path copy (incl. the getcwd/realloc growth loop) and of the environment copy included - the caller's heap afterwards holds exactly the blocks it held before; the regenerated ownership table of redirect_destroy is the documented one; foreign types cause no system call; the single close helper; the post-start API closes only descriptors stored in the handle and never the invalid marker; failed start owns nothing.",
+    "the child balance (no unreaped child) of whole histories under every fault plan and the memory of drain's string sink (ProofsDrain + unit tie) and of reproc_run are decided by the tie's ledger monitors; the history theorem is about one handle (several handles interleaved: tie), about reproc_run/drain not at all (tie), and about the parent process (a fork-mode child's own table: C10/C11).",
     "single-fault enumeration + pairs + random histories with sprinkled faults + closed-FILE streams, all ending in destroy; close-discipline automaton on the parent's trace.",
     "Coq theorems (descriptor-table ownership invariant over whole histories, heap ownership invariant of start, ownership table, close footprints) + fault enumeration + ledger monitors")
 sim("C06", "every kill/waitpid made by terminate/kill/wait/stop/destroy names the pid stored in the handle, signals are SIGTERM/SIGKILL, none once a status is cached, rejection before start; a successful reap happens only while the handle's child is unreaped: at the moment the waitpid event is logged that pid is a zombie in the world (C06_reap_only_unreaped, every well-formed world).",
